@@ -36,6 +36,20 @@ def main():
         os.makedirs(os.path.dirname(report.BASELINE), exist_ok=True)
         json.dump(b, open(report.BASELINE, "w"), indent=1)
         print(f"baseline for {a.prop}: {len(b[a.prop])} obligation names")
+        from .kernels import base as kb
+        led = dict(kb.load_ledger())
+        mine = {r.kernel.id for r in chk.kernels}
+        stale = [key for key, e in led.items() if e.get("kernel") in mine and e.get("recorded_by") == a.prop]
+        for key in stale:
+            del led[key]
+        nnew = 0
+        for r in chk.kernels:
+            for o in r.obligations:
+                if o["verdict"] == "unsat" and not o.get("from_ledger") and o.get("ledger_key"):
+                    led[o["ledger_key"]] = {"kernel": r.kernel.id, "obligation": o["name"], "backend": o["backend"], "seconds": o["seconds"], "recorded_by": a.prop}
+                    nnew += 1
+        json.dump(led, open(kb.LEDGER, "w"), indent=0, sort_keys=True)
+        print(f"proof ledger: {nnew} refuted VCs recorded for {a.prop} ({len(led)} in total)")
     cmd = f"./check {a.prop} --tier {tier}"
     return chk.finish(cmd)
 
